@@ -102,6 +102,43 @@ theorem fold_zero (ts : List Str) :
 
 theorem selectEncoding_nil : selectEncoding [] = [] := by decide
 
+/-! ### the request body of one attempt -/
+
+/-- a faulting source never makes the request body end in EOF, whatever encoding was selected:
+    `io.Copy` hands the error to `pw.CloseWithError` -/
+theorem srcFault_bodyEnd (enc : Str) (file : Bytes) (k : Nat) (t : Bool) :
+    bodyEnd enc (sourceOf file (.srcFault k t)).2 = .error t := by
+  simp [bodyEnd, sourceOf, closeWithError, compressResult]
+
+theorem roundTrip_status (enc : Str) (file : Bytes) (c : Nat) :
+    roundTrip enc file (.status c) = (.response c, .complete file) := by
+  simp [roundTrip, bodyEnd, sourceOf, closeWithError, compressResult, getReader]
+
+theorem roundTrip_neterr (enc : Str) (file : Bytes) (t : Bool) :
+    roundTrip enc file (.neterr t) = (.error t, .none) := by
+  simp [roundTrip, bodyEnd, sourceOf, closeWithError, compressResult]
+
+theorem roundTrip_srcFault (enc : Str) (file : Bytes) (k : Nat) (t : Bool) :
+    roundTrip enc file (.srcFault k t) = (.error t, .aborted) := by
+  simp [roundTrip, bodyEnd, sourceOf, closeWithError, compressResult]
+
+/-- a handler reads a clean end of body only for the whole file, and only when the attempt's event
+    is an answer of the server (not a transport error, not a source fault) -/
+theorem roundTrip_complete (enc : Str) (file : Bytes) (o : Outcome) (body : Bytes)
+    (h : (roundTrip enc file o).2 = .complete body) : body = file ∧ ∃ c, o = .status c := by
+  cases o with
+  | status c => rw [roundTrip_status] at h; simp at h; exact ⟨h.symm, c, rfl⟩
+  | neterr t => rw [roundTrip_neterr] at h; simp at h
+  | srcFault k t => rw [roundTrip_srcFault] at h; simp at h
+
+/-- `cli.cli.Do` returns a response exactly for an answer of the server -/
+theorem roundTrip_response (enc : Str) (file : Bytes) (o : Outcome) (c : Nat)
+    (h : (roundTrip enc file o).1 = .response c) : o = .status c := by
+  cases o with
+  | status c' => rw [roundTrip_status] at h; simp at h; rw [h]
+  | neterr t => rw [roundTrip_neterr] at h; simp at h
+  | srcFault k t => rw [roundTrip_srcFault] at h; simp at h
+
 /-! ### one pass of the loop -/
 
 theorem pass_attempts (file : Bytes) (encs : Str) (bs : List Nat) (sc : List Outcome) :
@@ -179,9 +216,89 @@ theorem pass_restart_nonempty (file : Bytes) (encs : Str) (bs : List Nat) (sc : 
   subst he
   exact pass_no_restart file bs sc h
 
+theorem tail_drop (sc : List Outcome) (n : Nat) : sc.tail.drop n = sc.drop (n + 1) := by
+  cases sc <;> simp
+
+theorem getD_tail (sc : List Outcome) (n : Nat) (d : Outcome) : sc.tail.getD n d = sc.getD (n + 1) d := by
+  cases sc <;> simp
+
+theorem getD_zero (sc : List Outcome) (d : Outcome) : sc.getD 0 d = sc.headD d := by
+  cases sc <;> simp
+
+theorem getD_drop (sc : List Outcome) (m j : Nat) (d : Outcome) : (sc.drop m).getD j d = sc.getD (m + j) d := by
+  simp [List.getD_eq_getElem?_getD, List.getElem?_drop]
+
+/-- attempt `i` of a pass consumes script entry `i` -/
+theorem pass_consumed (file : Bytes) (encs : Str) (bs : List Nat) (sc : List Outcome) :
+    (pass file encs bs sc).2.2 = sc.drop (pass file encs bs sc).1.length := by
+  induction bs generalizing sc with
+  | nil => simp [pass]
+  | cons b rest ih =>
+    unfold pass
+    simp only []
+    split
+    · split
+      · simp
+      · split
+        · simp
+        · split
+          · simp only [List.length_cons]; rw [ih sc.tail, tail_drop]
+          · simp
+    · split
+      · simp only [List.length_cons]; rw [ih sc.tail, tail_drop]
+      · simp
+
+/-- a pass ends with a response only when its last attempt was answered by a server with a status
+    below 300: the event of that attempt is `status c`, not a transport error and not a source fault -/
+theorem pass_response (file : Bytes) (encs : Str) (bs : List Nat) (sc : List Outcome) (c s : Nat)
+    (h : (pass file encs bs sc).2.1 = .final (.response c s)) :
+    (pass file encs bs sc).1 ≠ [] ∧
+    sc.getD ((pass file encs bs sc).1.length - 1) (.status 200) = .status c ∧ c < 300 := by
+  induction bs generalizing sc with
+  | nil => simp [pass] at h
+  | cons b rest ih =>
+    unfold pass at h ⊢
+    simp only [] at h ⊢
+    split at h
+    · next c' hrt =>
+      have ho := roundTrip_response _ _ _ _ hrt
+      split at h
+      · next hlt =>
+        simp only [PassRes.final.injEq, Final.response.injEq] at h
+        simp only [hrt, hlt, if_true, List.length_cons, List.length_nil, ne_eq, List.cons_ne_nil,
+          not_false_eq_true, true_and]
+        rw [getD_zero, ho, h.1]
+        exact ⟨rfl, h.1 ▸ hlt⟩
+      · split at h
+        · simp at h
+        · split at h
+          · next hnl h406 htmp =>
+            obtain ⟨i1, i2, i3⟩ := ih sc.tail h
+            simp only [hrt, hnl, h406, htmp, if_false, if_true, List.length_cons, ne_eq, List.cons_ne_nil,
+              not_false_eq_true, true_and]
+            have hpos : 0 < (pass file encs rest sc.tail).1.length := List.length_pos_iff.mpr i1
+            refine ⟨?_, i3⟩
+            rw [getD_tail] at i2
+            have e : (pass file encs rest sc.tail).1.length + 1 - 1 = (pass file encs rest sc.tail).1.length - 1 + 1 := by omega
+            rw [e]; exact i2
+          · simp at h
+    · next t hrt =>
+      split at h
+      · next htmp =>
+        obtain ⟨i1, i2, i3⟩ := ih sc.tail h
+        simp only [hrt, htmp, if_true, List.length_cons, ne_eq, List.cons_ne_nil,
+          not_false_eq_true, true_and]
+        have hpos : 0 < (pass file encs rest sc.tail).1.length := List.length_pos_iff.mpr i1
+        refine ⟨?_, i3⟩
+        rw [getD_tail] at i2
+        have e : (pass file encs rest sc.tail).1.length + 1 - 1 = (pass file encs rest sc.tail).1.length - 1 + 1 := by omega
+        rw [e]; exact i2
+      · simp at h
+
 def isTemp : Outcome → Bool
   | .status c => statusIsTemporary c
   | .neterr t => t
+  | .srcFault _ t => t
 
 theorem temp_status (c : Nat) (h : statusIsTemporary c = true) : ¬ c < 300 ∧ c ≠ 406 := by
   unfold statusIsTemporary at h
@@ -199,7 +316,7 @@ theorem pass_first_healthy (file : Bytes) (encs : Str) (fails : List Outcome) (c
   | nil =>
     match bs, hk with
     | b :: rest, _ =>
-      simp [pass, hc, getReader]
+      simp [pass, hc, getReader, roundTrip_status]
   | cons o fails ih =>
     match bs, hk with
     | b :: rest, hk =>
@@ -213,13 +330,19 @@ theorem pass_first_healthy (file : Bytes) (encs : Str) (fails : List Outcome) (c
       | status c' =>
         simp only [isTemp] at ho
         obtain ⟨t1, t2⟩ := temp_status c' ho
-        simp only [List.cons_append, List.headD_cons, List.tail_cons, t1, t2, ho, hrest,
+        simp only [List.cons_append, List.headD_cons, List.tail_cons, roundTrip_status, t1, t2, ho, hrest,
           if_false, false_and, ne_eq, not_false_eq_true, and_self, if_true, iht]
         simp [getReader]
       | neterr t =>
         simp only [isTemp] at ho
         subst ho
-        simp only [List.cons_append, List.headD_cons, List.tail_cons, hrest,
+        simp only [List.cons_append, List.headD_cons, List.tail_cons, roundTrip_neterr, hrest,
+          ne_eq, not_false_eq_true, and_self, if_true, iht]
+        simp [getReader]
+      | srcFault k t =>
+        simp only [isTemp] at ho
+        subst ho
+        simp only [List.cons_append, List.headD_cons, List.tail_cons, roundTrip_srcFault, hrest,
           ne_eq, not_false_eq_true, and_self, if_true, iht]
         simp [getReader]
 
